@@ -30,6 +30,10 @@ int main(int argc, char **argv) {
         Fex f(&data); f(ab, ydv, 0.0);
         Jac jj(&data); jj(ab, Jm, 0.0, dfdt);
         for (int i = 0; i < NEQUATIONS; i++) { yd[i] = ydv[i]; for (int j = 0; j < NEQUATIONS; j++) J[i][j] = Jm(i, j); }
+        // the stepper reuses the SAME matrix for every step and overwrites it in between: a second call must give the same matrix
+        for (int i = 0; i < NEQUATIONS; i++) for (int j = 0; j < NEQUATIONS; j++) Jm(i, j) = 99.0 + i - j;
+        jj(ab, Jm, 0.0, dfdt);
+        for (int i = 0; i < NEQUATIONS; i++) for (int j = 0; j < NEQUATIONS; j++) if (!(Jm(i, j) == J[i][j]) && !(Jm(i, j) != Jm(i, j) && J[i][j] != J[i][j])) J[i][j] = Jm(i, j) + 1e300;
 #else
         SUNContext ctx; SUNContext_Create(NULL, &ctx);
         double y[NEQUATIONS]; for (int i = 0; i < NEQUATIONS; i++) { y[i] = st[i]; yd[i] = -777.0; }   // CVODE hands over an uncleared vector
